@@ -3,6 +3,6 @@
 T=${1:-quick}
 for id in C01 C02 C03 C04 C05 C06 C07 C08 C09 C10 C11 C12 C13 C14 C15 C16 C17 C18 C20; do
   s=$(date +%s)
-  out=$(/verif/check $id --tier $T 2>&1 | grep -E "^OK|^VIOLATION|^MACHINERY|^KNOWN-FINDING" | cut -c1-120 | tr '\n' ';')
+  out=$("$(dirname "$0")/../check" $id --tier $T 2>&1 | grep -E "^OK|^VIOLATION|^MACHINERY|^KNOWN-FINDING" | cut -c1-120 | tr '\n' ';')
   echo "$id $(( $(date +%s) - s ))s $out"
 done
